@@ -17,7 +17,7 @@ It must be the kind of clean-up a maintainer would really make: extract or inlin
 {("STYLE for this commit: " + style) if style else ""}
 HARD REQUIREMENT: the observable behaviour must be EXACTLY the same for every input and every stored state, not only for the tested ones: same state writes in the same order, same coins moved, same events with the same contents, same errors returned in the same situations (the error text may differ only where you deliberately improve wording - avoid that), same panics / no new panics, same results of queries. Do not fix bugs, do not add validation, do not change numeric results, do not change which store keys are used. Keep all exported function and method names and signatures that other packages use. If you are not sure a transformation is exactly equivalent, do not make it.
   (a) the repository must still compile (`go build ./...`), and
-  (b) the existing test suite must still pass: run `python3 /tmp/tools/cmp_baseline.py {wt}` (takes several minutes; it must print "now passing 550"). Afterwards delete leftovers: `rm -rf /tmp/chain4energy-e2e-testnet-test*`.
+  (b) the existing test suite must still pass: run `mkdir -p {wt}-tmp && TMPDIR={wt}-tmp python3 /tmp/tools/cmp_baseline.py {wt}; rm -rf {wt}-tmp` (takes several minutes; it must print "now passing 550"; the private TMPDIR matters because other workers run the same suite concurrently - do NOT delete /tmp/chain4energy-e2e-testnet-test* yourself).
 
 DELIVERABLES — when done, leave in {wt}:
   - the change applied in the working tree (uncommitted),
